@@ -93,7 +93,15 @@ def _safe_impl(mod, case):
     except BaseException as e:  # run_impl is expected to canonicalise; this is a harness-level escape
         if isinstance(e, KeyboardInterrupt):
             raise
-        return {"harness_exc": "%s: %s" % (type(e).__name__, e), "tb": traceback.format_exc()[-800:]}
+        try:
+            msg = str(e)
+        except BaseException:      # e.g. tornado.web.HTTPError.__str__ with a mismatched log_message format
+            msg = "<unprintable>"
+        try:
+            tb = traceback.format_exc()[-800:]
+        except BaseException:
+            tb = ""
+        return {"harness_exc": "%s: %s" % (type(e).__name__, msg), "tb": tb}
 
 
 class Run:
